@@ -80,6 +80,15 @@ var verifC15Src = []string{
 	   var @cur := @i;
 	   case when @i = @skip then continue; when @i = @stop then break; else @sum := @sum + @cur; end case;
 	 end while;`,
+	// 12: a block that declares only a function (shadowing an outer one); a later sibling block and a
+	//     later function invocation must see the outer function again, and may declare their own
+	`var @r1 := 0; var @r2 := 0; var @r3 := 0;
+	 declare g function () as begin return 1; end;
+	 declare h function () as begin return g() + 10; end;
+	 if @c = 1 then declare g function () as begin return 100; end; end if;
+	 if @d = 1 then @r1 := g(); end if;
+	 @r2 := h();
+	 if @c = 1 then declare g function () as begin return 7; end; @r3 := g(); end if;`,
 }
 
 var verifC15Progs [][]parser.Statement
@@ -210,6 +219,10 @@ func VerifC15Programs() {
 			want = 1
 		}
 		verifAssert("RETURN from inside a loop", get("res") == want)
+	case 12:
+		verifAssert("a sibling block sees the outer function", get("r1") == d)
+		verifAssert("a later invocation sees the outer function", get("r2") == 11)
+		verifAssert("a later block may declare its own function of that name", get("r3") == 7*c)
 	case 10, 11:
 		var i, sum int64
 		for i < n {
